@@ -21,16 +21,21 @@ Proof.
 Qed.
 
 (* anything that was successfully ordered against something is equal to itself *)
+Lemma num_cmp_some_not_nan na nb c : num_cmp na nb = Some c ->
+  is_fnan na = false /\ is_fnan nb = false /\ has_dnan na na = false /\ has_dnan nb nb = false /\
+  num_cmp na na = Some Eq /\ num_cmp nb nb = Some Eq.
+Proof.
+  destruct na, nb; cbn; intros H; try discriminate; repeat split; try reflexivity;
+    try (rewrite fin_cmp_refl; reflexivity); try (destruct neg; reflexivity); try (destruct neg0; reflexivity).
+Qed.
+
 Lemma cmp_self_right v b c : py_cmp v b = Ok (Some c) -> py_cmp b b = Ok (Some Eq).
 Proof.
   unfold py_cmp. destruct (num_of v) as [nv|] eqn:Nv; destruct (num_of b) as [nb|] eqn:Nb.
-  - destruct (has_dnan nv nb) eqn:Hd; [discriminate|].
+  - destruct (_ || _ || _) eqn:Hd; [discriminate|].
     intros H. injection H as H.
-    assert (Hb : has_dnan nb nb = false /\ num_cmp nb nb = Some Eq).
-    { destruct nv, nb; cbn in *; try discriminate; try (split; [reflexivity|]);
-        try (rewrite fin_cmp_refl; reflexivity); try reflexivity.
-      destruct neg; reflexivity. destruct neg0; reflexivity. }
-    destruct Hb as [-> ->]. reflexivity.
+    destruct (num_cmp_some_not_nan _ _ _ H) as (_ & Hfb & _ & Hdb & _ & Hcb).
+    rewrite Hdb, Hfb, Hcb. reflexivity.
   - destruct v, b; cbn in *; try discriminate.
   - destruct v, b; cbn in *; try discriminate.
   - destruct v, b; cbn in *; try discriminate; intros _; rewrite str_cmp_refl; reflexivity.
@@ -39,13 +44,10 @@ Qed.
 Lemma cmp_self_left v b c : py_cmp v b = Ok (Some c) -> py_cmp v v = Ok (Some Eq).
 Proof.
   unfold py_cmp. destruct (num_of v) as [nv|] eqn:Nv; destruct (num_of b) as [nb|] eqn:Nb.
-  - destruct (has_dnan nv nb) eqn:Hd; [discriminate|].
+  - destruct (_ || _ || _) eqn:Hd; [discriminate|].
     intros H. injection H as H.
-    assert (Hb : has_dnan nv nv = false /\ num_cmp nv nv = Some Eq).
-    { destruct nv, nb; cbn in *; try discriminate; try (split; [reflexivity|]);
-        try (rewrite fin_cmp_refl; reflexivity); try reflexivity.
-      destruct neg; reflexivity. destruct neg; reflexivity. }
-    destruct Hb as [-> ->]. reflexivity.
+    destruct (num_cmp_some_not_nan _ _ _ H) as (Hfa & _ & Hda & _ & Hca & _).
+    rewrite Hda, Hfa, Hca. reflexivity.
   - destruct v, b; cbn in *; try discriminate.
   - destruct v, b; cbn in *; try discriminate.
   - destruct v, b; cbn in *; try discriminate; intros _; rewrite str_cmp_refl; reflexivity.
